@@ -4,6 +4,7 @@ package main
 // evaluated per state (root / non-root / inlined), equals what getPrefixSize() returns for that state.
 
 import (
+	"go/types"
 	"fmt"
 	"go/token"
 
@@ -97,6 +98,11 @@ func constPartH(v ssa.Value, st stateAssume, depth int, seen map[ssa.Value]bool,
 		}
 		return 0, false
 	case *ssa.Extract:
+		if c, ok := x.Tuple.(*ssa.Call); ok {
+			if k, ok := spliceCallee(c, x.Index, st, depth, hook); ok {
+				return k, true
+			}
+		}
 		if c, ok := x.Tuple.(*ssa.Call); ok && x.Index == 0 {
 			nm := calleeName(c)
 			if nm == "safeAdd2Uint32" || nm == "safeAdd3Uint32" {
@@ -115,6 +121,9 @@ func constPartH(v ssa.Value, st stateAssume, depth int, seen map[ssa.Value]bool,
 	case *ssa.Parameter:
 		return 0, true // a caller-supplied amount: variable part
 	case *ssa.Call:
+		if k, ok := spliceCallee(x, 0, st, depth, hook); ok {
+			return k, true
+		}
 		return 0, true // Size(), ByteSize(): the variable part
 	case *ssa.UnOp:
 		return 0, true
@@ -170,6 +179,64 @@ func constPartH(v ssa.Value, st stateAssume, depth int, seen map[ssa.Value]bool,
 		return 0, false
 	}
 	return 0, false
+}
+
+// spliceCallee: the constant part of result #idx of a call to a private helper of the package (a size computation
+// that was extracted into its own function): the helper's success returns are evaluated with its parameters bound
+// to the constant parts of the actual arguments; all of them must agree. Size accessors (Size, ByteSize, Count,
+// getPrefixSize) are not spliced: they are the variable part / handled by the caller's hook.
+func spliceCallee(c *ssa.Call, idx int, st stateAssume, depth int, hook func(ssa.Value) (int64, bool)) (int64, bool) {
+	g := c.Call.StaticCallee()
+	if g == nil || g.Pkg == nil || g.Pkg.Pkg.Path() != rootPkgPath || len(g.Blocks) == 0 || depth > 12 {
+		return 0, false
+	}
+	switch g.Name() {
+	case "Size", "ByteSize", "Count", "getPrefixSize", "safeAdd2Uint32", "safeAdd3Uint32":
+		return 0, false
+	}
+	if g.Object() != nil && g.Object().Exported() {
+		return 0, false
+	}
+	res := g.Signature.Results()
+	if idx >= res.Len() {
+		return 0, false
+	}
+	if b, ok := res.At(idx).Type().Underlying().(*types.Basic); !ok || b.Info()&types.IsInteger == 0 {
+		return 0, false
+	}
+	args := c.Call.Args
+	inner := func(v ssa.Value) (int64, bool) {
+		if prm, ok := v.(*ssa.Parameter); ok && prm.Parent() == g {
+			for i, q := range g.Params {
+				if q == prm && i < len(args) {
+					return constPartH(args[i], st, depth+1, map[ssa.Value]bool{}, hook)
+				}
+			}
+		}
+		if hook != nil {
+			return hook(v)
+		}
+		return 0, false
+	}
+	have := false
+	var val int64
+	for _, ret := range returnsOf(g) {
+		if cl, _ := classifyReturn(ret); cl == retError {
+			continue
+		}
+		if idx >= len(ret.Results) {
+			return 0, false
+		}
+		k, ok := constPartH(ret.Results[idx], st, depth+1, map[ssa.Value]bool{}, inner)
+		if !ok {
+			return 0, false
+		}
+		if have && k != val {
+			return 0, false
+		}
+		have, val = true, k
+	}
+	return val, have
 }
 
 func ruleL2(p *Prog, r *Report) {
